@@ -464,17 +464,26 @@ async fn on_commitment_revocation(
 
     for (tower_id, net_addr, status) in towers {
         // A commitment revocation may be notified more than once. If this tower has already acknowledged the appointment
-        // (we hold its signed receipt) there is nothing left to do, whatever state the tower is in now.
-        if plugin
-            .state()
-            .lock()
-            .unwrap()
-            .dbm
-            .load_appointment_receipt(tower_id, locator)
-            .is_some()
+        // (we hold its signed receipt), or rejected it (it is held as invalid), there is nothing left to do, whatever state
+        // the tower is in now.
         {
-            log::debug!("{tower_id} has already accepted {locator}");
-            continue;
+            let state = plugin.state().lock().unwrap();
+            if state
+                .dbm
+                .load_appointment_receipt(tower_id, locator)
+                .is_some()
+            {
+                log::debug!("{tower_id} has already accepted {locator}");
+                continue;
+            }
+            if state
+                .towers
+                .get(&tower_id)
+                .map_or(false, |t| t.invalid_appointments.contains(&locator))
+            {
+                log::debug!("{tower_id} has already rejected {locator}");
+                continue;
+            }
         }
 
         if status.is_reachable() {
